@@ -147,9 +147,20 @@ class Q(Fraction):
             return f"Q({self.numerator})"
         return f"Q('{self.numerator}/{self.denominator}')"
 
-    # prevent NumPy from treating Q as an array-like when it is the right operand
+    # NumPy interplay: the four arithmetic ufuncs stay exact (np.float64(1) + Q(1) -> Q); every other ufunc
+    # (np.isclose, np.sqrt, np.abs ...) sees Q operands as Python floats, like any other real number would be
     __array_priority__ = 1000
-    __array_ufunc__ = None
+
+    def __array_ufunc__(self, ufunc, method, *inputs, **kwargs):
+        if method == '__call__' and not kwargs and len(inputs) == 2 and _np is not None:
+            a, b = inputs
+            op = {_np.add: '__add__', _np.subtract: '__sub__', _np.multiply: '__mul__', _np.true_divide: '__truediv__'}.get(ufunc)
+            if op is not None and not isinstance(a, _np.ndarray) and not isinstance(b, _np.ndarray):
+                la, lb = _lift(a), _lift(b)
+                if la is not NotImplemented and lb is not NotImplemented:
+                    return Q(getattr(Fraction, op)(la, lb))
+        conv = [float(i) if isinstance(i, Fraction) else i for i in inputs]
+        return getattr(ufunc, method)(*conv, **kwargs)
 
     def __copy__(self):
         return self
